@@ -105,6 +105,11 @@ def _t_self_additional(n):
     return {n[0]: dict(obj({"label": STR}, ["label"]), additionalProperties=REF(n[0])), n[1]: obj({"root": REF(n[0]), "v": INT})}
 
 
+def _t_null_property(n):
+    # a property left empty in YAML (`note:`) is a null node parsed under a contextual name
+    return {n[0]: obj({"note": None, "x": STR}), n[1]: obj({"h": REF(n[0]), "y": INT})}
+
+
 def _t_oneof(n):
     return {n[0]: {"oneOf": [REF(n[1]), REF(n[2])]}, n[1]: obj({"u": REF(n[0]), "x": STR}), n[2]: obj({"y": INT})}
 
@@ -124,6 +129,7 @@ TEMPLATES = {
     "ring3": (3, _t_ring3, [{"b": ("ref", 1), "x": "string"}, {"c": ("ref", 2), "y": "string"}, {"h": ("ref", 0), "z": "string"}], [set(), set(), set()]),
     "map": (2, _t_map, [{"m": ("map", ("ref", 1)), "x": "string"}, {"h": ("ref", 0), "y": "integer"}], [set(), set()]),
     "self_additional": (2, _t_self_additional, [{"label": "string"}, {"root": ("ref", 0), "v": "integer"}], [{"label"}, set()]),
+    "null_property": (2, _t_null_property, [{"note": None, "x": "string"}, {"h": ("ref", 0), "y": "integer"}], [set(), set()]),
     "oneof": (3, _t_oneof, [None, {"u": ("ref", 0), "x": "string"}, {"y": "integer"}], [None, set(), set()]),
     "diamond": (3, _t_diamond, [{"l": ("ref", 1), "r": ("ref", 2)}, {"b": ("ref", 0), "p": "string"}, {"b": ("ref", 1), "q": "string"}], [set(), set(), set()]),
 }
